@@ -2,7 +2,8 @@
    Only theorem statements, each closed by [exact <lemma>], non-vacuity examples, Print Assumptions.
    model: model/VecIndex.v (Engine.Add = add, Index.forklessCause = fc, Index.ForklessCause with its
    LRU = fc_query); specification: spec/FcSpec.v (fc_spec: ancestry closure + seq-forks). *)
-From Coq Require Import NArith List Permutation Bool.
+From Coq Require Import NArith ZArith List Permutation Bool.
+From LV Require model.Wlru proofs.WlruProofs.
 From LV Require Import model.VecIndex model.VecPersist proofs.VecPersistProofs spec.FcSpec spec.StreamSpec proofs.FcSpecFast proofs.FcSpecFacts proofs.VecInv proofs.VecStep proofs.VecMain.
 Import ListNotations.
 Local Open Scope N_scope.
@@ -111,6 +112,19 @@ Theorem C05_vector_caches_transparent : forall ops t, coh t -> Forall top_small 
   t_run t ops = m_run (t_fl t, t_cur t) ops.
 Proof. exact cache_transparent. Qed.
 
+(* Round 4: the COMPOSED engine (VecPersist.ceng): byte tables + BranchesInfo record + HB/LA write-through
+   caches + ForklessCause LRU + dirty flag.  Adds write key by key through the caches (t_set), queries read
+   through the LRU and, on a miss, through t_get; DropNotFlushed purges the vector caches only if something was
+   unflushed and KEEPS the ForklessCause LRU; Restart is a new object: three new caches (any capacities).
+   One history theorem: every answer equals the specification on the view current when it was asked. *)
+Theorem C05_engine_history_answers : forall ws q n U cap mw ms c0 ops,
+  0 < q -> WlruProofs.small mw -> Wlru.new mw ms = Some c0 ->
+  cops_ok ws q n U (ce_new n cap c0 c0, []) ops ->
+  forall a b r E, In (a, b, r, E) (snd (fold_left (cstep ws q) ops (ce_new n cap c0 c0, []))) -> r = fc_spec ws q n E a b.
+Proof. exact engine_history_answers. Qed.
+Theorem C05_restart_is_not_drop : exists ce cap c0, ce_fc (ce_restart cap c0 c0 ce) <> ce_fc (ce_drop ce).
+Proof. exact restart_differs_from_drop. Qed.
+
 (* the executable hypothesis check run by the driver on every generated stream *)
 Theorem C05_wf_check_is_hypothesis : forall n E e, wf_evb n E e = true <-> wf_ev n E e.
 Proof. exact wf_evb_iff. Qed.
@@ -162,6 +176,32 @@ Example C05_ex_restart :
   length (pd_hb (p_db p)) = 5%nat /\ length (pd_hb (p_cur p)) = 6%nat.
 Proof. vm_compute. repeat split; reflexivity. Qed.
 
+(* non-vacuity of C05_vector_caches_transparent: a coherent table + cache of weight/size 16 (evictions happen:
+   three 8-byte values do not fit), a drop, a reopen with capacity 0 (nothing is ever resident) *)
+Definition ex_c16 : bcache := Wlru.mkCache [] 0 16 16 false.
+Definition ex_tops : list top :=
+  [TSet 1 [1;0;0;0;1;0;0;0]; TSet 2 [2;0;0;0;2;0;0;0]; TGet 1; TSet 3 [3;0;0;0;3;0;0;0]; TGet 2; TGet 1; TFlush;
+   TSet 4 [4;0;0;0]; TGet 4; TDrop; TGet 4; TGet 3; TReopen 0 0%Z; TGet 1; TGet 1; TSet 1 [9;0;0;0]; TGet 1].
+Example C05_ex_coh : coh {| t_fl := []; t_cur := []; t_c := ex_c16 |} /\ Forall top_small ex_tops.
+Proof.
+  split; [apply (coh_new 16 16%Z ex_c16); [vm_compute; reflexivity|reflexivity]|].
+  repeat constructor; vm_compute; reflexivity.
+Qed.
+Example C05_ex_cache_run :
+  t_run {| t_fl := []; t_cur := []; t_c := ex_c16 |} ex_tops = m_run ([], []) ex_tops /\
+  length (Wlru.c_entries (t_c (snd (t_step (snd (t_step (snd (t_step {| t_fl := []; t_cur := []; t_c := ex_c16 |}
+     (TSet 1 [1;0;0;0;1;0;0;0]))) (TSet 2 [2;0;0;0;2;0;0;0]))) (TSet 3 [3;0;0;0;3;0;0;0]))))) = 2%nat.
+Proof. vm_compute. split; reflexivity. Qed.
+(* the composed engine on the fork stream: a query cached before a Drop, answered from the LRU after the re-add,
+   then a restart (empty LRU, caches of capacity 0) and the same query computed again through t_get *)
+Definition ex_cops : list cop :=
+  map CAdd (firstn 3 ex_o) ++ [CFlush; CAdd (nth 3 ex_o (Build_event 0 0 0 [])); CQuery 4 1; CDrop;
+    CAdd (nth 3 ex_o (Build_event 0 0 0 [])); CQuery 4 1; CFlush; CRestart 0 0 0%Z; CQuery 4 1; CQuery 4 1].
+Example C05_ex_engine :
+  let '(ce, out) := fold_left (cstep [1;1;1] 3) ex_cops (ce_new 3 5 ex_c16 ex_c16, []) in
+  map (fun x => snd (fst x)) out = [true; true; true; true] /\ fc_items (ce_fc ce) = [] /\ nbr (ce_view ce) = 3%nat.
+Proof. vm_compute. repeat split; reflexivity. Qed.
+
 Print Assumptions C05_anc_is_ancestry.
 Print Assumptions C05_spec_counts_validator.
 Print Assumptions C05_spec_row_is_spec.
@@ -181,3 +221,5 @@ Print Assumptions C05_restart_index_equiv.
 Print Assumptions C05_restart_same_answers.
 Print Assumptions C05_restart_answers_equal_spec.
 Print Assumptions C05_vector_caches_transparent.
+Print Assumptions C05_engine_history_answers.
+Print Assumptions C05_restart_is_not_drop.
